@@ -11,41 +11,150 @@
    optstr   = 'N' | 'S' enc
    node     = name ':' optstr ':' found(0/1)
    entries  = node ':' optional(0/1) ':' depth  joined by ';'
-   QUERIES  = name ':' optstr  joined by ';' *)
-let dec_opt (s : string) : ascii list option =
-  if s = "N" then None else Some (dec_str (String.sub s 1 (String.length s - 1)))
-let enc_opt (o : ascii list option) : string =
+   QUERIES  = name ':' optstr  joined by ';'
+
+   The composed model (coq/Model/DepWalk.v, DepWalkText.v): no edges are fed, the model resolves every line itself
+     dlist  EXTRA FLAVORS FX FXP DB TYPES IMPLICIT PRODUCTS OPTS TAGS NAME VERSION TOPO CHECK
+                                              -> ok TAB entries | err TAB kind
+     dgraph ... the same up to VERSION        -> ok TAB graph TAB cycle check | err TAB kind
+     dedges ... the same up to TAGS (dedges2: the tables as the second walk reads them)        -> ok TAB tables | err TAB kind
+     dlistg ... as dlist without CHECK        -> Model/Graph.v dependent_products on the world of the edges the model
+                                                 resolved (the two sides of dep_products_is_graph), ok / err / plain=0 (some line has -j, -k or -t)
+   EXTRA    = extra global tags, ','        FLAVORS = running flavor then fall-backs, ','
+   FX, FXP  = 0/1: tables read for the flavor of the product (1) or the running flavor (0); pinned names looked up
+              under every flavor (1) or the running one (0)
+   DB       = stack '|' ...   stack = id '@' decl ',' ... '@' chain ',' ...   decl = name~version~flavor
+              chain = name~flavor~tag~version
+   TYPES    = the -T types, ','              IMPLICIT = words of the implicit product line, ','
+   PRODUCTS = text '|' ...    text = name~version~flavor~dir~root~tabletext
+   OPTS     = keep exact inexact vnamed (four 0/1 characters)    TAGS = -t words, ','
+   tables   = name ',' version '>' line ';' ...   line = name:optv:optx:tag+tag:keep:optional:just:found
+   found    = '-' | stack~name~version~flavor
+     dhyp   ... as dedges                     -> ok TAB five 0/1 characters: dworld_ok, version names fit C10, version entry in
+                                                 the VRO, no -j line, no line changes the VRO (hyps_text)
+     dlook  EXTRA FLAVORS DB VRO NAME VERS EXPR   one look-up of the walk (the loop over the flavors)  -> ok TAB found *)
+let dec_opt (s : Stdlib.String.t) : ascii list option =
+  if s = "N" then None else Some (dec_str (Stdlib.String.sub s 1 (Stdlib.String.length s - 1)))
+let enc_opt (o : ascii list option) : Stdlib.String.t =
   match o with None -> "N" | Some v -> "S" ^ enc_str v
 
-let dec_edge (s : string) : edge =
-  match String.split_on_char ':' s with
+let dec_edge (s : Stdlib.String.t) : edge =
+  match Stdlib.String.split_on_char ':' s with
   | [n; v; r; o] -> { ename = dec_str n; evers = dec_opt v; eres = dec_opt r; eopt = bool_of_field o }
   | _ -> failwith "bad edge"
 
-let dec_world (s : string) : ((ascii list * ascii list) * edge list) list =
-  List.map (fun p ->
-    match String.split_on_char ',' p with
-    | [n; v; es] -> ((dec_str n, dec_str v), List.map dec_edge (split_sep ';' es))
+let dec_world (s : Stdlib.String.t) : ((ascii list * ascii list) * edge list) list =
+  Stdlib.List.map (fun p ->
+    match Stdlib.String.split_on_char ',' p with
+    | [n; v; es] -> ((dec_str n, dec_str v), Stdlib.List.map dec_edge (split_sep ';' es))
     | _ -> failwith "bad product") (split_sep '|' s)
 
-let enc_node (((n, v), r) : (ascii list * ascii list option) * bool) : string =
+let enc_node (((n, v), r) : (ascii list * ascii list option) * bool) : Stdlib.String.t =
   enc_str n ^ ":" ^ enc_opt v ^ ":" ^ field_of_bool r
 
-let enc_entries (l : ((((ascii list * ascii list option) * bool) * bool) * nat) list) : string =
-  String.concat ";" (List.map (fun ((p, o), d) ->
+let enc_entries (l : ((((ascii list * ascii list option) * bool) * bool) * nat) list) : Stdlib.String.t =
+  Stdlib.String.concat ";" (Stdlib.List.map (fun ((p, o), d) ->
     enc_node p ^ ":" ^ field_of_bool o ^ ":" ^ string_of_int (int_of_nat d)) l)
 
-let enc_nodes sep l = String.concat sep (List.map enc_node l)
+let enc_nodes sep l = Stdlib.String.concat sep (Stdlib.List.map enc_node l)
 
-let fuel_for w = nat_of_int (List.length w + 2)
+let fuel_for w = nat_of_int (Stdlib.List.length w + 2)
 
 let show_entries r = match r with Ok l -> "ok\t" ^ enc_entries l | Err k -> "err\t" ^ err_name k
 
 let enc_consumers l =
-  String.concat ";" (List.map (fun ((un, uv), ((pv, o), d)) ->
+  Stdlib.String.concat ";" (Stdlib.List.map (fun ((un, uv), ((pv, o), d)) ->
     enc_str un ^ ":" ^ enc_str uv ^ ":" ^ enc_opt pv ^ ":" ^ field_of_bool o ^ ":" ^ string_of_int (int_of_nat d)) l)
 
-let handle (f : string array) : string =
+
+(* ------------------------------------------------------------------ the composed model *)
+let words (s : Stdlib.String.t) : ascii list list = dec_list ',' dec_str s
+
+let dec_decl (s : Stdlib.String.t) =
+  match Stdlib.String.split_on_char '~' s with
+  | [n; v; f] -> ((dec_str n, dec_str v), dec_str f)
+  | _ -> failwith "bad decl"
+
+let dec_chain (s : Stdlib.String.t) =
+  match Stdlib.String.split_on_char '~' s with
+  | [n; f; t; v] -> (((dec_str n, dec_str f), dec_str t), dec_str v)
+  | _ -> failwith "bad chain"
+
+let dec_stack (s : Stdlib.String.t) : stackv =
+  match Stdlib.String.split_on_char '@' s with
+  | [id; d; c] ->
+    { st_id = dec_str id;
+      st_decl = Stdlib.List.map dec_decl (split_sep ',' d);
+      st_chain = Stdlib.List.map dec_chain (split_sep ',' c) }
+  | _ -> failwith "bad stack"
+
+let dec_db (s : Stdlib.String.t) : stackv list = Stdlib.List.map dec_stack (split_sep '|' s)
+
+let dec_text (s : Stdlib.String.t) : dtext =
+  match Stdlib.String.split_on_char '~' s with
+  | [n; v; f; d; r; t] ->
+    { dx_name = dec_str n; dx_version = dec_str v; dx_flavor = dec_str f; dx_dir = dec_str d;
+      dx_root = dec_str r; dx_text = dec_str t }
+  | _ -> failwith "bad text"
+
+let show_found (o : found option) : Stdlib.String.t =
+  match o with
+  | None -> "-"
+  | Some p -> Stdlib.String.concat "~" [enc_str p.fd_stack; enc_str p.fd_name; enc_str p.fd_version; enc_str p.fd_flavor]
+
+let show_line ((l, o) : dline * found option) : Stdlib.String.t =
+  Stdlib.String.concat ":" [enc_str l.dl_name; enc_opt l.dl_version; enc_opt l.dl_expr;
+                            Stdlib.String.concat "+" (Stdlib.List.map enc_str l.dl_tags);
+                            field_of_bool l.dl_keep; field_of_bool l.dl_optional; field_of_bool l.dl_just; show_found o]
+
+let composed (f : Stdlib.String.t array) : Stdlib.String.t =
+  let cfg = site_config (words f.(1)) [] in
+  let flavors = words f.(2) in
+  let fx = bool_of_field f.(3) and fxp = bool_of_field f.(4) in
+  let db = dec_db f.(5) in
+  let types = words f.(6) and implicit = words f.(7) in
+  let ps = Stdlib.List.map dec_text (split_sep '|' f.(8)) in
+  let b i = f.(9).[i] = '1' in
+  let o = { o_keep = b 0; o_exact = b 1; o_inexact = b 2; o_tags = words f.(10); o_posttags = [];
+            o_productdir = false; o_vnamed = b 3 } in
+  let fuel = nat_of_int (Stdlib.List.length ps + 2) in
+  match f.(0) with
+  | "dhyp" ->
+    (match hyps_text cfg flavors fx db types implicit ps o with
+     | Err k -> "err\t" ^ err_name k
+     | Ok bs -> "ok\t" ^ Stdlib.String.concat "" (Stdlib.List.map field_of_bool bs))
+  | "dedges" | "dedges2" ->
+    (match edges_text cfg flavors fx db types implicit ps o (f.(0) = "dedges2") with
+     | Err k -> "err\t" ^ err_name k
+     | Ok tbl ->
+       "ok\t" ^ Stdlib.String.concat "|" (Stdlib.List.map (fun ((n, v), ls) ->
+         enc_str n ^ "," ^ enc_str v ^ ">" ^ Stdlib.String.concat ";" (Stdlib.List.map show_line ls)) tbl))
+  | "dlistg" ->
+    let top = ((dec_str f.(11), Some (dec_str f.(12))), true) in
+    (match edges_text cfg flavors fx db types implicit ps o false with
+     | Err k -> "err\t" ^ err_name k
+     | Ok tbl ->
+       if Stdlib.List.exists (fun (_, ls) -> Stdlib.List.exists (fun (l, _) -> l.dl_just || l.dl_keep || l.dl_tags <> []) ls) tbl then "plain=0"
+       else
+         let w = Stdlib.List.map (fun (k, ls) ->
+           (k, Stdlib.List.map (fun (l, o) ->
+              { ename = l.dl_name; evers = l.dl_version;
+                eres = (match o with Some p -> Some p.fd_version | None -> None); eopt = l.dl_optional }) ls)) tbl in
+         show_entries (dependent_products fuel w top (bool_of_field f.(13))))
+  | "dgraph" ->
+    let top = ((dec_str f.(11), Some (dec_str f.(12))), true) in
+    (match graph_text cfg flavors fx fxp db types implicit ps o fuel top with
+     | Err k -> "err\t" ^ err_name k
+     | Ok g ->
+       let gs = Stdlib.String.concat ";" (Stdlib.List.map (fun (n, ss) -> enc_node n ^ ">" ^ enc_nodes "," ss) g) in
+       let cyc = (match check_cycles g with Ok _ -> "pass" | Err k -> err_name k) in
+       "ok\t" ^ gs ^ "\t" ^ cyc)
+  | _ ->
+    let top = ((dec_str f.(11), Some (dec_str f.(12))), true) in
+    show_entries (list_text cfg flavors fx fxp db types implicit ps o fuel top
+                    (bool_of_field f.(13)) (bool_of_field f.(14)))
+
+let handle (f : Stdlib.String.t array) : Stdlib.String.t =
   match f.(0) with
   | "deps" | "depsp" | "depsn" ->
     let w = dec_world f.(1) in
@@ -59,16 +168,16 @@ let handle (f : string array) : string =
     (match (if f.(0) = "topo" then topo_graph else topo_graph_byname_pinned) (fuel_for w) w top with
      | Err k -> "err\t" ^ err_name k
      | Ok g ->
-       let gs = String.concat ";" (List.map (fun (n, ss) -> enc_node n ^ ">" ^ enc_nodes "," ss) g) in
+       let gs = Stdlib.String.concat ";" (Stdlib.List.map (fun (n, ss) -> enc_node n ^ ">" ^ enc_nodes "," ss) g) in
        (match scc g with
         | Err k -> "err\t" ^ err_name k
         | Ok cs ->
-          let css = String.concat ";" (List.map (enc_nodes ",") cs) in
+          let css = Stdlib.String.concat ";" (Stdlib.List.map (enc_nodes ",") cs) in
           let ls = (match comp_layers false g cs with
                     | Err k -> "err=" ^ err_name k
                     | Ok l -> (match sort_layers node_cmp l with
                                | Err k -> "err=" ^ err_name k
-                               | Ok l -> String.concat ";" (List.map (enc_nodes ",") l))) in
+                               | Ok l -> Stdlib.String.concat ";" (Stdlib.List.map (enc_nodes ",") l))) in
           let cyc = (match check_cycles g with Ok _ -> "pass" | Err k -> err_name k) in
           "ok\t" ^ gs ^ "\t" ^ css ^ "\t" ^ ls ^ "\t" ^ field_of_bool (partition_ok g cs) ^ "\t" ^ cyc))
   | "uses" | "usesp" ->
@@ -76,13 +185,22 @@ let handle (f : string array) : string =
     (match uses_index (fuel_for w) w with
      | Err k -> "err\t" ^ err_name k
      | Ok idx ->
-       "ok\t" ^ String.concat "|" (List.map (fun q ->
-         match String.split_on_char ':' q with
+       "ok\t" ^ Stdlib.String.concat "|" (Stdlib.List.map (fun q ->
+         match Stdlib.String.split_on_char ':' q with
          | [x; ov] ->
            (match (if f.(0) = "uses" then users else users_pinned) idx (dec_str x) (dec_opt ov) with
             | Ok l -> "ok=" ^ enc_consumers l
             | Err k -> "err=" ^ err_name k)
          | _ -> failwith "bad query") (split_sep ';' f.(2))))
+  | "dlist" | "dgraph" | "dedges" | "dedges2" | "dlistg" | "dhyp" -> composed f
+  | "dlook" ->
+    (* dlook EXTRA FLAVORS DB VRO NAME VERS EXPR -> ok TAB found | err TAB kind *)
+    let cfg = site_config (words f.(1)) [] in
+    (match lookup_text cfg (words f.(2)) (dec_db f.(3)) (words f.(4))
+             { rq_name = dec_str f.(5); rq_version = dec_opt f.(6); rq_expr = dec_opt f.(7) } with
+     | Err k -> "err\t" ^ err_name k
+     | Ok o -> "ok\t" ^ show_found o)
   | _ -> failwith "unknown op"
+
 
 let () = main_loop handle
